@@ -58,6 +58,7 @@ type Contract struct {
 	GhostExit    []*GhostAssign
 	GhostPre     []*GhostAssign
 	Uses         []string
+	Assumes      []*Clause     // "assume[label] E": assumed when the body is verified, NOT checked at call sites (listed in evidence)
 	AtCall       []atCallGhost // "at-call <callee-key> lhs := rhs": ghost assignment executed just before matching calls
 	Recv         []*chanClause // "recv v assume E": every channel receive yields a value v satisfying E
 	Send         []*chanClause // "send v assert E": every channel send of value v must satisfy E (obligation)
@@ -129,7 +130,7 @@ func NewContractDB() *ContractDB {
 }
 
 var clauseKeywords = map[string]bool{"func": true, "props": true, "trusted": true, "inline": true, "noinline": true, "pure-call": true,
-	"requires": true, "ensures": true, "modifies": true, "use!": true, "at-call": true, "recv": true, "send": true, "loop": true, "ghost-exit": true, "ghost-pre": true, "use": true, "ghost": true,
+	"requires": true, "ensures": true, "modifies": true, "assume": true, "use!": true, "at-call": true, "recv": true, "send": true, "loop": true, "ghost-exit": true, "ghost-pre": true, "use": true, "ghost": true,
 	"pure": true, "ufun": true, "axiom": true, "lemma": true, "callback-field": true, "callback-type": true,
 	"bounded": true, "nopanic": true, "note": true, "end": true, "params": true, "results": true}
 
@@ -503,6 +504,10 @@ func (db *ContractDB) LoadFile(path string, raw bool) error {
 				cur.AtCall = append(cur.AtCall, atCallGhost{Callee: f[0], GA: ga})
 			case "recv", "send":
 				f := strings.SplitN(l.rest, " ", 3)
+				if len(f) == 3 && strings.HasPrefix(f[1], "assert[") {
+					f[2] = f[1][len("assert"):] + " " + f[2]
+					f[1] = "assert"
+				}
 				if len(f) < 3 || (f[1] != "assume" && f[1] != "assert") {
 					db.errf(l, "expected: recv v assume E | send v assert E")
 					continue
@@ -544,6 +549,10 @@ func (db *ContractDB) LoadFile(path string, raw bool) error {
 			case "ensures":
 				if c := mkClause(l); c != nil {
 					cur.Ensures = append(cur.Ensures, c)
+				}
+			case "assume":
+				if c := mkClause(l); c != nil {
+					cur.Assumes = append(cur.Assumes, c)
 				}
 			case "modifies":
 				if strings.TrimSpace(l.rest) == "*" {
